@@ -239,7 +239,8 @@ Untouched(t0, t) ==
         \cup (IF t.focus = t0.focus THEN {} ELSE {"focus"}) \cup (IF t.aw = t0.aw THEN {} ELSE {"autowrap"})
         \cup (IF t.title = t0.title /\ t.tstack = t0.tstack THEN {} ELSE {"title"})
         \cup (IF t.bells = t0.bells THEN {} ELSE {"bell"}) \cup (IF t.clip = t0.clip THEN {} ELSE {"clipboard"})
-        \cup (IF t.modes = t0.modes /\ t.amodes = t0.amodes THEN {} ELSE {"modes"})
+        \* DEC mode 12 (cursor blink) and ANSI mode 34 belong to the cursor-appearance strings cnorm/civis
+        \cup (IF t.modes \ {12} = t0.modes \ {12} /\ t.amodes \ {34} = t0.amodes \ {34} THEN {} ELSE {"modes"})
         \cup (IF t.winreq = t0.winreq THEN {} ELSE {"window"})}
 
 \* C13: only changed cells are repainted
@@ -248,7 +249,7 @@ Partners(vis, S) == {i + 1 : i \in {j \in S : j <= Len(vis) /\ vis[j].k = "wide"
 
 RepaintDevs(c, t0, t, b, s) ==
     LET vis == Vis(b)
-        stamped == {i \in 1..Len(t.g) : t.g[i].st > t0.stamp}
+        stamped == {i \in 1..Len(t.g) : t.g[i].st > t0.stamp /\ ~t.g[i].er}
         diff == IF Len(s.pvis) # Len(vis) THEN 1..Len(vis) ELSE {i \in 1..Len(vis) : s.pvis[i] # vis[i]}
         base == s.chg \cup diff \cup s.unl
         a1 == base \cup Partners(vis, base) \cup (IF Len(s.pvis) = Len(vis) THEN Partners(s.pvis, base) ELSE {})
@@ -315,7 +316,11 @@ Draw(e, sync) ==
                 \cup (IF ~visible \/ ~trusted THEN {}
                       ELSE (IF s1.eshape = -1 \/ t1.shape = s1.eshape THEN {} ELSE {Dev("EXTRA.cursor_style", "shape", 0, 0, <<t1.shape, s1.eshape>>)})
                            \cup (IF t1.ccol = s1.eccol THEN {} ELSE {Dev("EXTRA.cursor_style", "colour", 0, 0, <<t1.ccol, s1.eccol>>)}))
-    IN <<t1, b1, s1, devs>>
+        \* named deviation (cell.go SetDirty): a painted cell that holds rune 0 holds a blank from then on
+        b2 == [b1 EXCEPT !.cells = [i \in DOMAIN b1.cells |->
+                  IF b1.cells[i].cp = 0 /\ i <= Len(t1.g) /\ t1.g[i].st > t0.stamp /\ t1.g[i].w # 0
+                  THEN [b1.cells[i] EXCEPT !.cp = 32, !.wc = 1] ELSE b1.cells[i]]]
+    IN <<t1, b2, s1, devs>>
 
 TtyStep(s, e) ==
     LET a == TtyRun([st |-> s.tty, cb |-> s.cbreg, bad |-> {}, afterStop |-> FALSE], e.tty, 1, e.ev = "Fini")
@@ -348,8 +353,11 @@ ModeCall(e, s1) ==
 \* returns <<term', cb', scr', devs>>
 Handle(e) ==
     CASE e.ev = "SetContent" ->
-           LET b1 == CB!ReqSetContent(cb, e.x, e.y, e.cp, e.wc, e.comb, e.st) IN
-           <<term, b1, [scr EXCEPT !.chg = @ \cup Changed(cb, b1)], {}>>
+           LET b1 == CB!ReqSetContent(cb, e.x, e.y, e.cp, e.wc, e.comb, e.st)
+               ch == Changed(cb, b1)
+               \* the column to the right is covered / uncovered when a wide rune is stored or replaced
+               pa == {i + 1 : i \in {j \in ch : j % cb.w # 0 /\ (cb.cells[j].wc = 2 \/ b1.cells[j].wc = 2)}}
+           IN <<term, b1, [scr EXCEPT !.chg = @ \cup ch \cup pa], {}>>
       [] e.ev = "Fill" ->
            LET b1 == CB!ReqFill(cb, e.cp, e.wc, e.st) IN
            <<term, b1, [scr EXCEPT !.chg = @ \cup Changed(cb, b1)], {}>>
@@ -380,7 +388,7 @@ Handle(e) ==
       [] e.ev \in {"Suspend", "Fini"} ->
            IF scr.running THEN Disengage(e)
            ELSE LET t1 == Feed(term, e) IN <<t1, cb, [scr EXCEPT !.fini = @ \/ e.ev = "Fini"], StreamDevs(term, t1)>>
-      [] e.ev = "EnableMouse" -> ModeCall(e, [scr EXCEPT !.mflags = IF e.n = 0 THEN 7 ELSE e.n])
+      [] e.ev = "EnableMouse" -> ModeCall(e, [scr EXCEPT !.mflags = e.n])
       [] e.ev = "DisableMouse" -> ModeCall(e, [scr EXCEPT !.mflags = 0])
       [] e.ev = "EnablePaste" -> ModeCall(e, [scr EXCEPT !.paste = TRUE])
       [] e.ev = "DisablePaste" -> ModeCall(e, [scr EXCEPT !.paste = FALSE])
